@@ -26,6 +26,7 @@ RULE = (
     "or a failing body with >=1 disposable; distinct = distinct case"
 )
 RULE += '; a disposable may yield exactly one state object that is falsy'
+RULE += '; body outcomes include a falsy exception instance; disposables may fail with a non-Exception BaseException'
 LEVEL_TEXT = (
     "Fault enumeration: the disposable behaviour space is enumerated completely for <=2 disposables (thorough) and "
     "sampled for 3-4; for cancelled bodies every loop iteration is a crash point. The oracle is the doubles' call ledger: "
@@ -58,6 +59,8 @@ def program(case):
     ]
     if case["body"] == "raise":
         inner_body.append({"k": "raise", "exc": "Exception"})
+    elif case["body"] == "falsy":
+        inner_body.append({"k": "raise", "exc": "FalsyExc"})  # an exception whose instance is falsy: same details as any other
     elif case["body"] == "base":
         inner_body.append({"k": "raise", "exc": "BaseExc"})
     inner = {
@@ -285,7 +288,7 @@ def run_case(case) -> Outcome:
         classes.append("exit-failure")
     if any(b.startswith("suspend") for b in behs):
         classes.append("suspension")
-    if case["body"] in ("raise", "base"):
+    if case["body"] in ("raise", "base", "falsy"):
         classes.append("body-raises")
     if case["body"] == "cancel":
         classes.append("cancelled-body")
@@ -302,6 +305,7 @@ def _disp_strategy():
         st.just({"b": "raise"}),
         st.builds(lambda t: {"b": "suspend_ok", "t": t}, times),
         st.builds(lambda t: {"b": "suspend_raise", "t": t}, times),
+        st.just({"b": "raise_base"}),
     )
     mostly_ok = st.one_of(st.just({"b": "ok"}), st.just({"b": "ok"}), beh)
     exit_beh = st.one_of(beh, beh, beh, st.just({"b": "ok", "ret": True}))
@@ -319,7 +323,7 @@ def strategy(tier):
         st.lists(P.sv_strategy(), max_size=2),
         st.lists(_disp_strategy(), min_size=0, max_size=4),
         st.booleans(),
-        st.sampled_from(["return", "raise", "raise", "base", "cancel", "cancel"]),
+        st.sampled_from(["return", "raise", "raise", "base", "falsy", "cancel", "cancel"]),
         # delay after which an unrelated scope (own disposables, another task) starts entering; None = no such scope
         st.sampled_from([None, None, None, 0.125, 0.25, 0.625]),
     )
